@@ -317,6 +317,12 @@ func runC03(c *Ctx) {
 					continue
 				}
 				c.Require("C03.F signed", H+"."+f.Name, "-", "the field is part of the signing bytes", signed[f.Name], "")
+				if f.Name == "ImpliesMaxPrevotes" {
+					// LIP-0058 defines it, but it is not among the validity rules the property enumerates;
+					// reported as a note, not an obligation (it is covered by the signature only)
+					c.Notes = append(c.Notes, fmt.Sprintf("BlockHeader.ImpliesMaxPrevotes: read on the validation path = %v (informational; not one of the enumerated rules)", len(read[f.Name]) > 0 || viaAccessor[f.Name]))
+					continue
+				}
 				consumed := len(read[f.Name]) > 0 || viaAccessor[f.Name]
 				where := strings.Join(uniq(read[f.Name]), ", ")
 				if viaAccessor[f.Name] {
@@ -424,6 +430,15 @@ func runC03(c *Ctx) {
 		for _, s := range CallsIn(process, "(*consensus.Executer).deleteBlock") {
 			okVal, _ := pfacts.NilErrAt(s.Call.Block(), IsCall("(*blockchain.Block).Validate"))
 			c.Require("C03.N tie-break-validates-first", FuncKey(process)+" ⇒ deleteBlock", p.InstrPos(s.Call), "the tip is removed only after the incoming block passed Block.Validate", okVal, "")
+			// the stateful verification of the incoming block happens only inside processValidated, i.e. after the tip was already removed:
+			// a tie-break block that fails verification has by then changed the chain and emitted delete/new events
+			verifiedFirst := false
+			for _, v := range CallsIn(process, "(*consensus.Executer).verifyBlock") {
+				if instrDominates(v.Call, s.Call) {
+					verifiedFirst = true
+				}
+			}
+			c.Require("C03.N tie-break-verifies-before-delete", FuncKey(process)+" ⇒ deleteBlock before the incoming block is verified", p.InstrPos(s.Call), "a rejected block changes nothing: the tip may be removed only once the replacing block is known to be valid (or the removal and its events must be invisible)", verifiedFirst, "the incoming tie-break block is verified (verifyBlock, ABI verify/execute) only inside processValidated, after deleteBlock has removed the tip and published EventBlockDelete")
 		}
 	}
 
